@@ -40,7 +40,8 @@ func init() {
 		Floors: func(tier string) map[string]int64 {
 			f := map[string]int64{"held_pairs_checked": 40000, "held_pairs_compared_with_proposer_bytes": 40000, "scenario_reached": 300,
 				"victim_completed_B1_without_proposal": 60, "victim_accepted_other_proposal_after_completing_B1": 40, "victim_completed_B2_after_B1": 40,
-				"victim_completed_B1_after_B2": 40, "forged_parts_delivered": 1500, "heights_finished_after_script": 250}
+				"victim_completed_B1_after_B2": 40, "forged_parts_delivered": 1500, "heights_finished_after_script": 250,
+				"victim_proposals_over_block_plus_trailing_bytes": 40, "victim_proposals_same_header_twin_of_the_polka_block": 35, "locks_compared_with_own_precommit": 8000}
 			if tier == "thorough" {
 				for k := range f {
 					f[k] *= 25
